@@ -1,7 +1,7 @@
 /- Line-protocol driver for C02 (cross-reference resolution). -/
 import PdfVerif.Spec.Xref
 
-open PdfVerif PdfVerif.Xref
+open PdfVerif PdfVerif.Xref PdfVerif.Gen.Xref
 
 structure St where
   data : Bytes := []
@@ -94,7 +94,10 @@ def xrefsOf (st : St) : List Xref.Section := (st.doc.getD []).map (·.1)
 def openDoc (st : St) (bufsiz : Nat) : Except Err (List (Xref.Section × Trailer)) :=
   match findXref bufsiz st.data with
   | .error e => .error e
-  | .ok pos => readXrefFrom ⟨st.data, st.secs, st.objs⟩ (st.secs.length + 2) pos []
+  | .ok pos =>
+    match readXrefFrom ⟨st.data, st.secs, st.objs⟩ (st.secs.length + 2) pos ([], []) with
+    | .ok r => .ok r.1
+    | .error e => .error e
 
 def step (st : St) (line : String) : St × String :=
   match words line with
